@@ -728,3 +728,23 @@ pub fn classify(kind: Kind, msg: &str) -> Vec<Stage> {
         _ => vec![],
     }
 }
+
+/// Reference signature of a received request *as if* these authentication parameters were the effective ones
+/// (used to build requests whose duplicated inputs make exactly one selection valid).
+pub fn sign_as(view: &View, cfg: &Cfg, credential: &str, signed: &[String], t: Inst, secret: &str) -> Option<String> {
+    let cpath = canon_path(&view.path, cfg.s3, Quirks::default()).ok()?;
+    let mut merged = parse_query(view.query.as_deref().unwrap_or(b"")).ok()?;
+    let mut payload = sha::hex(&sha::sha256(&view.body));
+    if cfg.fold && form_kind(view) == FormKind::FormUtf8 {
+        std::str::from_utf8(&view.body).ok()?;
+        merged.extend(parse_query(&view.body).ok()?);
+        payload = EMPTY_SHA.to_string();
+    }
+    let mut s: Vec<String> = signed.to_vec();
+    s.sort();
+    let creq = super::canonical_request(&view.method, &cpath, &canon_query(&merged), &view.headers, &s, &payload);
+    let scope = credential.split_once('/').map(|x| x.1).unwrap_or("");
+    let sts = super::string_to_sign(&t.compact(), scope, &creq);
+    let key = sha::derive(secret.as_bytes(), &t.yyyymmdd(), cfg.region.as_bytes(), cfg.service.as_bytes()).ksigning;
+    Some(super::signature(&key, &sts))
+}
